@@ -142,7 +142,7 @@ impl Property for C12 {
         "C12"
     }
     fn rule(&self) -> String {
-        "three generated case kinds. Records: a synthesised accounting-record file of any of the 15 layouts (plain or in a container) printed at 65536 and at 2..4 block sizes in 64..5000 that are no multiple of the record size, all outputs identical. E2E: generated text log (one in eight ends in a bare timestamp without newline whose last byte alone lies in the next block at an added block size; plain or in a generated gz/bz2/xz/lz4/tar container), optional window, optional -u -d prefix, run at 65536 and at 4 sizes from {64,65,66,100,127,128,129,255,256,1000,4095..4097,8095..8097,0xFFFF,0x10001,0xFFFFFF,generated}: every stdout must equal the 65536 stdout and the model output. Lines (in-process LineReader, block sizes 1..len+2): sequential find_line results must tile the file and equal split-on-newline, random-access find_line(fo) on fresh and warmed readers must return the line containing fo; contents over {\\n,a,1,\\r,0x80} exhaustively enumerated up to length 7 in the extra phase. non-trivial: E2E = file larger than one block at some size and a message/line starts, ends or straddles a block boundary (+-1) there; Lines = >=2 lines and content longer than the block; distinct = hash(content, sizes).".into()
+        "three generated case kinds. Records: a synthesised accounting-record file of any of the 15 layouts (plain or in a container) printed at 65536 and at 2..4 block sizes in 64..5000 that are no multiple of the record size, all outputs identical. E2E: generated text log (one ISO 8601 log in eight ends in a bare timestamp without newline whose last byte alone lies in the next block at an added block size; plain or in a generated gz/bz2/xz/lz4/tar container), optional window, optional -u -d prefix, run at 65536 and at 4 sizes from {64,65,66,100,127,128,129,255,256,1000,4095..4097,8095..8097,0xFFFF,0x10001,0xFFFFFF,generated}: every stdout must equal the 65536 stdout and the model output. Lines (in-process LineReader, block sizes 1..len+2): sequential find_line results must tile the file and equal split-on-newline, random-access find_line(fo) on fresh and warmed readers must return the line containing fo; contents over {\\n,a,1,\\r,0x80} exhaustively enumerated up to length 7 in the extra phase. non-trivial: E2E = file larger than one block at some size and a message/line starts, ends or straddles a block boundary (+-1) there; Lines = >=2 lines and content longer than the block; distinct = hash(content, sizes).".into()
     }
     fn assumptions(&self) -> Vec<String> {
         vec!["files must pass the block-zero acceptance heuristic at every size used (finding F6 excluded by construction; probed as known finding)".into()]
@@ -173,7 +173,9 @@ impl Property for C12 {
                 // last byte into the next block (file size = k * bs + 1)
                 // (only with two full messages before it: a file that is nothing but a bare timestamp is outside the
                 // generated domain, the block-zero analysis need not accept it)
-                let enough = log.msgs.len() >= 3;
+                // and only for the ISO 8601 notation: e.g. the epoch notation needs a delimiter after the fraction, a bare
+                // epoch line is a continuation line by the program's own grammar
+                let enough = log.msgs.len() >= 3 && log.tmpl == 0;
                 if let (Some(pick), Some(last), true) = (tail, log.msgs.last_mut(), enough) {
                     last.body = B(vec![]);
                     last.cont.clear();
